@@ -119,8 +119,8 @@ def usad_sem(acc):
         rm = S.reg(f['Rm'])
         total = S.reg(f['Ra']) if acc else BV(0, 32)
         for a, b in zip(lanes(rn, 8), lanes(rm, 8)):
-            d = zx(a, 10) - zx(b, 10)  # exact UInt(a) - UInt(b) in 10 bits two's complement
-            total = total + zx(z3.If(d < 0, -d, d), 32)
+            d = zx(a, 32) - zx(b, 32)  # exact UInt(a) - UInt(b)
+            total = total + z3.If(d < 0, -d, d)
         S.set_reg(f['Rd'], total)
     return sem
 
